@@ -360,6 +360,12 @@ func (rd *realDecoder) getStringArray() ([]string, error) {
 		return nil, errInvalidArrayLength
 	}
 
+	// every string takes at least its two length bytes
+	if n > rd.remaining()/2 {
+		rd.off = len(rd.raw)
+		return nil, ErrInsufficientData
+	}
+
 	ret := make([]string, n)
 	for i := range ret {
 		str, err := rd.getString()
